@@ -75,12 +75,8 @@ theorem loLe_hiLe_sound (blo bhi lo hi : Option Int) (h1 : loLe blo lo = true) (
 /-- The white-space set of the live regex `Patterns.whitespaces` is the set the model's `collapse` uses. -/
 theorem whitespace_table : whitespaceCPs = Lex.pyWhiteCPs := by decide +kernel
 
-/-- `str.strip()` removes exactly the model's `isPyStripWhite` characters (the regex set plus U+00A0). -/
-theorem strip_table : ∀ n ∈ stripCPs, (Lex.pyWhiteCPs.contains n || n == 160) = true := by decide +kernel
-theorem strip_table' : stripCPs.length = Lex.pyWhiteCPs.length + 1 := by decide +kernel
-
-/-- XSD white space (#x20 #x9 #xA #xD) is a subset of the implementation's white space. -/
-theorem xsd_white_subset : ∀ n ∈ [32, 9, 10, 13], n ∈ whitespaceCPs := by decide +kernel
+/-- the live white-space regex matches exactly XML white space #x9 #xA #xD #x20 (fix-c10-2) -/
+theorem whitespace_is_xml : whitespaceCPs = [9, 10, 13, 32] := by decide +kernel
 
 /-- literal sets used by the constructors -/
 theorem literal_sets : booleanValues = ["0", "1", "false", "true"] ∧ infOrNan = ["+INF", "-INF", "INF", "NaN"] := by
@@ -100,7 +96,7 @@ def expectedPatterns : List (String × String) :=
    ("nonPositiveInteger", int), ("positiveInteger", int), ("short", int), ("unsignedByte", int),
    ("unsignedInt", int), ("unsignedLong", int), ("unsignedShort", int),
    ("Patterns.numeric_literal", "^[+-]?(?:[0-9]+(?:\\.[0-9]*)?|\\.[0-9]+)(?:[Ee][+-]?[0-9]+)?$"),
-   ("Patterns.whitespaces", "[^\\S\\xa0]+")]
+   ("Patterns.whitespaces", "[ \\t\\n\\r]+")]
 
 /-- **patterns_pinned**: the source text of the `pattern` of every modelled type in the live code is
 the text that the model's recognisers were transcribed from (in particular xs:float and xs:double have
@@ -108,6 +104,6 @@ the same pattern — F10a).  Any edit of a pattern breaks this theorem and trigg
 theorem patterns_pinned : ∀ e ∈ expectedPatterns, e ∈ patterns := by decide +kernel
 
 /-- non-vacuity: the tables are not empty -/
-example : intTable.length = 13 ∧ 40 < patterns.length ∧ whitespaceCPs.length = 28 := by decide +kernel
+example : intTable.length = 13 ∧ 40 < patterns.length ∧ whitespaceCPs.length = 4 := by decide +kernel
 
 end EPV.C10
